@@ -14,14 +14,35 @@ PosOK(sp, pos) ==      \* k-th reported position lies between the end of form k 
   \A k \in 1..Len(pos) : k <= Len(sp) =>
       /\ pos[k] >= sp[k].e
       /\ pos[k] <= (IF k < Len(sp) THEN sp[k + 1].s ELSE pos[k])
+OneForm == {"stream-one", "clread", "clseek"}
+Prefix(a, b) == Len(a) <= Len(b) /\ \A k \in 1..Len(a) : a[k] = b[k]
+\* a span is closed when the text goes on after it or it ends with its own closing delimiter; an unclosed last
+\* token of a truncated text may be a piece of a longer token
+Closed(t, sp) == sp.e < Len(t) \/ (sp.e >= 1 /\ t[sp.e] \in {RP, DQ, PIPE})
 Verdict(e) ==
-  LET sp == Spans(e.text) IN
-  IF e.status0 = "ok" /\ sp.complete /\ Len(sp.spans) # Len(e.objs0) THEN "calibration: one-shot object count differs from the structure layer"
-  ELSE IF e.status # e.status0 THEN "status differs from the one-shot read"
-  ELSE IF e.objs # (IF e.entry = "stream-one" /\ Len(e.objs0) > 1 THEN SubSeq(e.objs0, 1, 1) ELSE e.objs0)
-       THEN "objects differ from the one-shot read"
-  ELSE IF e.status0 = "ok" /\ ~PosOK(sp.spans, e.pos) THEN "position inside a form or beyond the next one"
-  ELSE IF ~sp.complete /\ e.status0 = "ok" THEN "text ends inside a form but was read as complete"
+  LET sp == Spans(e.text)
+      first0 == IF Len(e.objs0) > 1 THEN SubSeq(e.objs0, 1, 1) ELSE e.objs0 IN
+  IF e.status = "fault" THEN "internal fault"
+  ELSE IF ~e.trunc /\ e.status0 = "ok" /\ sp.complete /\ Len(sp.spans) # Len(e.objs0)
+       THEN "calibration: a complete text was read as a different number of objects than it has forms"
+  \* (1) delivery independence
+  \* (which condition class reports an unreadable text is not compared: the statement allows "incomplete or parse error")
+  ELSE IF e.entry \notin OneForm /\ (e.status = "ok") # (e.status0 = "ok") THEN "read succeeds for one delivery and fails for the other"
+  ELSE IF e.entry \notin OneForm /\ e.status0 = "ok" /\ e.objs # e.objs0 THEN "objects differ from the one-shot read"
+  ELSE IF e.entry \in OneForm /\ e.status0 = "ok" /\ (e.status # "ok" \/ e.objs # first0)
+       THEN "one-form read differs from the first object of the one-shot read"
+  \* the structural clauses below apply where the structure layer describes the text the way the one-shot reader
+  \* sees it (a truncation can leave a fragment such as "#*" or "#2r-" on which the two differ: not judged)
+  ELSE IF e.status0 = "ok" /\ sp.complete /\ Len(sp.spans) # Len(e.objs0) THEN ""
+  \* (3) positions
+  ELSE IF e.status = "ok" /\ ~PosOK(sp.spans, e.pos) THEN "position inside a form or beyond the next one"
+  \* (4) a text that stops inside a form
+  ELSE IF ~sp.complete /\ e.entry \notin OneForm /\ e.status = "ok" THEN "text ends inside a form but was read as complete"
+  ELSE IF ~sp.complete /\ e.entry \in OneForm /\ Len(sp.spans) = 0 /\ e.status = "ok" /\ e.objs # <<>>
+       THEN "text ends inside its first form but an object was delivered"
+  ELSE IF Len(e.objs) > Len(sp.spans) THEN "more objects than forms"
+  ELSE IF e.trunc /\ \E k \in 1..Len(e.objs) : k <= Len(sp.spans) /\ Closed(e.text, sp.spans[k]) /\ k <= Len(e.full) /\ e.objs[k] # e.full[k]
+       THEN "a form before the truncation point was read as a different object"
   ELSE ""
 Next == /\ l <= Len(E) /\ l' = l + 1 /\ seen' = seen + 1
         /\ LET v == Verdict(E[l]) IN
